@@ -485,6 +485,13 @@ inline int driverMain(int argc, char **argv, Harness &h) {
     uint64_t rs = runSeedFor(a, h, (uint64_t)a.single);
     Json plan = h.generate(rs, (uint64_t)a.single);
     plan["seed"] = Json(std::to_string(rs));
+    if (const char *pre = getenv("VERIF_PRE")) {
+      // Debugging aid for history dependence: run another index first in the same process.
+      uint64_t pi = std::strtoull(pre, nullptr, 10);
+      Json pp = h.generate(runSeedFor(a, h, pi), pi);
+      g_log.reset(false);
+      h.execute(pp);
+    }
     if (const char *rep = getenv("VERIF_REPEAT")) {
       // Leak hunting: execute the same plan many times and report the resident set size.
       for (int k = 0, n = std::atoi(rep); k < n; k++) {
